@@ -1289,8 +1289,8 @@ DefinedUntaggedType:
 		 */
 		if($$->expr_type == ASN_CONSTR_SEQUENCE_OF
 		|| $$->expr_type == ASN_CONSTR_SET_OF) {
-			assert(!TQ_FIRST(&($$->members))->constraints);
-			TQ_FIRST(&($$->members))->constraints = $2;
+			assert(!$2 || !TQ_FIRST(&($$->members))->constraints);
+			if($2) TQ_FIRST(&($$->members))->constraints = $2;
 		} else {
 			if($$->constraints) {
 				assert(!$2);
@@ -1312,8 +1312,8 @@ UntaggedType:
 		 */
 		if($$->expr_type == ASN_CONSTR_SEQUENCE_OF
 		|| $$->expr_type == ASN_CONSTR_SET_OF) {
-			assert(!TQ_FIRST(&($$->members))->constraints);
-			TQ_FIRST(&($$->members))->constraints = $2;
+			assert(!$2 || !TQ_FIRST(&($$->members))->constraints);
+			if($2) TQ_FIRST(&($$->members))->constraints = $2;
 		} else {
 			if($$->constraints) {
 				assert(!$2);
@@ -1336,8 +1336,8 @@ MaybeIndirectTaggedType:
 		 */
 		if($$->expr_type == ASN_CONSTR_SEQUENCE_OF
 		|| $$->expr_type == ASN_CONSTR_SET_OF) {
-			assert(!TQ_FIRST(&($$->members))->constraints);
-			TQ_FIRST(&($$->members))->constraints = $3;
+			assert(!$3 || !TQ_FIRST(&($$->members))->constraints);
+			if($3) TQ_FIRST(&($$->members))->constraints = $3;
 		} else {
 			if($$->constraints) {
 				assert(!$2);
